@@ -5,6 +5,8 @@ use pvcore::report::*;
 use serde_json::{json, Value};
 
 pub mod common;
+pub mod c01;
+pub mod c02;
 pub mod c05;
 pub mod c06;
 pub mod c07;
@@ -73,6 +75,8 @@ pub struct Check {
 pub fn scenario_by_name(name: &str, params: &Value) -> Scenario {
     let prop = name.split('/').next().unwrap_or("");
     match prop {
+        "C01" => c01::scenario(name, params),
+        "C02" => c02::scenario(name, params),
         "C05" => c05::scenario(name, params),
         "C06" => c06::scenario(name, params),
         "C07" => c07::scenario(name, params),
@@ -95,6 +99,8 @@ pub fn scenario_by_name(name: &str, params: &Value) -> Scenario {
 
 pub fn check_by_id(id: &str, tier: Tier) -> Check {
     match id {
+        "C01" => c01::check(tier),
+        "C02" => c02::check(tier),
         "C05" => c05::check(tier),
         "C06" => c06::check(tier),
         "C07" => c07::check(tier),
